@@ -13,7 +13,8 @@ def sigma(name, sd=None):
     full = core + ['*', '%', '&', '#', '\\(', '\\)', '\\begin', '\\end', '{%s}' % N.e,
                    '\\begin{equation}', '\\end{equation}', '\\begin{verbatim}', '\\end{verbatim}', '\\newcommand',
                    '\\end{%s%s}' % (N.e, N.e), '\\end{f}', '\\left(', '\\big|', '\\cup', '\\textbf', '\\section',
-                   '\\def', '[%s]' % N.e, '\\begin{%s[}' % N.e, '\\end{%s[}' % N.e, '\x00', '\x7f', '\r']
+                   '\\def', '[%s]' % N.e, '\\begin{%s[}' % N.e, '\\end{%s[}' % N.e, '\\end{{%s}}' % N.e, '\r\n',
+                   '\x00', '\x7f', '\r']
     mini = ['\\', '{', '}', '[', ']', '$', N.sp, '\n', N.a, '%', '\\' + N.x, '\\begin{%s}' % N.e, '\\end{%s}' % N.e]
     return {'full': full, 'core': core, 'min': mini}[name]
 
@@ -64,6 +65,7 @@ def iter_strings(shard):
 
 
 HOSTILE = ['\\', '{', '}', '[', ']', '$', '%', ' ', '\n', 'a', '*', '&']
+HOSTILE_TOKENS = ['%c\n', '\n\n', '{}', '\\x', '\r\n', '[]']      # multi-character fillers (tiny documents only)
 
 
 def neighbourhood(text, prefixes=True, deletions=True, insertions=True, transpositions=True, hostile=HOSTILE):
@@ -103,7 +105,7 @@ def nest_kinds(N):
     return [
         ('{', '}'), ('\\%s{' % N.x, '}'), ('\\%s[' % N.x, ']'), ('\\begin{%s}' % N.e, '\\end{%s}' % N.e),
         ('{\\item ', '}'), ('${', '}$'), ('\\[{', '}\\]'), ('\\begin{equation}', '\\end{equation}'),
-        ('\\begin{%s}\\end{' % N.e, '}'), ('\\%s[{' % N.x, '}]'),
+        ('\\begin{%s}\\end{' % N.e, '}'), ('\\%s[{' % N.x, '}]'), ('\\textbf{', '}'),
     ]
 
 
